@@ -95,6 +95,18 @@ ScanResult Theo::scan(std::map<FileName, FileContent> files, FileName main) {
       continue;
     }
     res.push_back(t);
+    if (res.size() >= THEO_SCAN_MAX_TOKENS) {
+      // files that include the same file twice double the stream with every
+      // level: stop before memory runs out
+      errors.push_back({ParseError::Type::TOO_MANY_TOKENS,
+                        "more than " + std::to_string(THEO_SCAN_MAX_TOKENS) +
+                            " tokens after include expansion",
+                        s.f, t.line});
+      while (!lex_stack.empty()) {
+        cleanup_scanner(lex_stack.back());
+        lex_stack.pop_back();
+      }
+    }
   }
   if (res.empty()) {
     // nothing was scanned (absent or empty main file): there is no last token
